@@ -2,12 +2,13 @@
 use crate::runner::Property;
 
 pub mod c01;
+pub mod c02;
 pub mod c03;
 pub mod c14;
 pub mod c15;
 
 pub fn all() -> Vec<Property> {
-    vec![c01::property(), c03::property(), c14::property(), c15::property()]
+    vec![c01::property(), c02::property(), c03::property(), c14::property(), c15::property()]
 }
 
 pub fn get(id: &str) -> Option<Property> {
